@@ -1177,7 +1177,25 @@ func judgeCrash(ref *refRun, d int, C *State, explicit map[string]bool) []*evid.
 			if exempt {
 				continue
 			}
-			if miss := C.Missing(dg); len(miss) > 0 {
+			// A referrers fallback tag passes through intermediate values while a copy adds referrers
+			// one by one (neither the old nor the new list). A part that is already missing from this
+			// tag's closure at a boundary of the interrupted operation (a referrer manifest that was
+			// pushed without its blobs) is still the operations' doing, whatever the list's value.
+			allowed := map[string]bool{}
+			for _, S := range []*State{Sd, Sn} {
+				if sd, ok := S.Tags[t]; ok {
+					for _, m := range S.MissingRel(sd) {
+						allowed[m] = true
+					}
+				}
+			}
+			var miss []string
+			for _, m := range C.MissingRel(dg) {
+				if !allowed[m] {
+					miss = append(miss, strings.ReplaceAll(m, "TOP", dg))
+				}
+			}
+			if len(miss) > 0 {
 				add(missSig(dg, miss[0]), "tag %q -> %s is present but its image is incomplete: %s", t, short(dg), strings.Join(miss, "; "))
 			}
 		}
@@ -1274,7 +1292,8 @@ func judgeRerun(ref *refRun, d int, C, R *State, res *drvResult, victim []DrvOp,
 	var vs []*evid.Violation
 	add := func(sig, f string, a ...any) { vs = append(vs, evid.V(sig, f, a...)) }
 	Sm := ref.S[len(ref.S)-1]
-	unlisted := map[string]bool{} // referrers left out of their subject's list by the repeated copy (see below)
+	unlisted := map[string]bool{}   // referrers left out of their subject's list by the repeated copy (see below)
+	incMissing := map[string]bool{} // parts named by a rerun-leaves-incomplete-image finding of this execution
 	if !res.Ended {
 		add("rerun-driver-died", "re-running victim ops %d.. on the crashed directory: the client process died\n%s\n%s", d, tail(res.Raw, 400), res.Stderr)
 		return vs
@@ -1350,6 +1369,11 @@ func judgeRerun(ref *refRun, d int, C, R *State, res *drvResult, victim []DrvOp,
 		if len(Sm.Missing(rd)) == 0 {
 			if miss := R.Missing(rd); len(miss) > 0 {
 				add("rerun-leaves-incomplete-image", "after repeating the interrupted operation(s) tag %q -> %s is incomplete (complete in the uninterrupted run): %s", t, short(rd), strings.Join(miss, "; "))
+				for _, m := range miss {
+					if f := strings.Fields(m); len(f) == 2 {
+						incMissing[f[1]] = true
+					}
+				}
 			}
 		}
 	}
@@ -1383,9 +1407,63 @@ func judgeRerun(ref *refRun, d int, C, R *State, res *drvResult, victim []DrvOp,
 	for i := d; i < len(victim); i++ {
 		closeInSuffix = closeInSuffix || victim[i].Op == "close"
 	}
+	// Narrow attribution (2): the interrupted operation was Close (GC). A file that the sweep had
+	// already unlinked (present before the Close, absent in the crashed state) while a garbage
+	// manifest naming it survived (present in the crashed state, unreachable from index.json before
+	// the Close), and that a rerun-leaves-incomplete-image finding of THIS execution names as the
+	// missing part, is the same behaviour seen from the file side: the repeated copy trusted the
+	// surviving manifest and did not bring the file back.
+	Sd := ref.S[d]
+	sweptUnderSurvivor := func(dg string) bool {
+		if d >= len(victim) || victim[d].Op != "close" || !Sd.Files[dg] {
+			return false
+		}
+		if _, present := C.Files[dg]; present {
+			return false
+		}
+		live := Sd.ReachIndex()
+		survivors := map[string]bool{}
+		for _, m := range sortedKeys(C.Files) {
+			if m == dg || !C.Files[m] || live[m] {
+				continue
+			}
+			r := map[string]bool{}
+			C.Reach(m, r)
+			if r[dg] {
+				survivors[m] = true
+			}
+		}
+		if len(survivors) == 0 {
+			return false
+		}
+		if incMissing[dg] {
+			return true
+		}
+		// ... or the image is not tagged any more at the end: then the repeated suffix must itself
+		// have pushed a parent (present after the re-run, absent in the crashed state) that lists
+		// the surviving manifest, i.e. a copy went past that manifest without looking at its parts
+		for _, p := range sortedKeys(R.Files) {
+			if _, inC := C.Files[p]; inC || !R.Files[p] || survivors[p] {
+				continue
+			}
+			r := map[string]bool{}
+			R.Reach(p, r)
+			for m := range survivors {
+				if r[m] {
+					return true
+				}
+			}
+		}
+		return false
+	}
 	var reachR map[string]bool
 	for _, dg := range sortedKeys(Sm.Files) {
 		if explicit[dg] && Sm.Files[dg] && !R.Files[dg] {
+			if sweptUnderSurvivor(dg) {
+				add("rerun-leaves-incomplete-image", "consequence in the same execution: blobs/%s (present in the uninterrupted run) was unlinked by the interrupted sweep while a garbage manifest naming it survived; the repeated copy trusted that manifest and did not bring the file back",
+					strings.Replace(dg, ":", "/", 1))
+				continue
+			}
 			if _, present := R.Files[dg]; !present && closeInSuffix && viaUnlisted[dg] {
 				if reachR == nil {
 					reachR = R.ReachIndex()
